@@ -293,3 +293,12 @@ PRE_RUN_SECOND_SETUP_FAILS = _case(
        [_f("f0", "pre_run", [], teardown=[_RAISE_EXC]), _f("f1", "pre_run", [_RAISE_EXC])]),
     _cfg(2))
 PRE_RUN_CONTROLS = [PRE_RUN_CHAIN_LATER_SETUP_FAILS, PRE_RUN_SECOND_SETUP_FAILS]
+
+# reporting sessions of ONE class whose on_<event> handlers are set per instance: the one that only listens to the starts is
+# registered before the complete one (and, in the second run of the process, before the one listening to starts and ends)
+LISTENERS_PARTIAL_FIRST = dict(_case(
+    _p([_s("s0", [_t("t0", [], [_LOG, {"a": "step", "d": "second"}, _LOG]), _t("t1", [], [_ERR], rank=2)],
+           setup_suite={"params": [], "script": [_LOG]})]), _cfg(1)), listeners=["starts", "all"])
+LISTENERS_PARTIAL_FIRST_2 = dict(LISTENERS_PARTIAL_FIRST, listeners=["records", "starts+ends", "all"],
+                                 project=dict(LISTENERS_PARTIAL_FIRST["project"], nb_threads=2))
+LISTENER_CONTROLS = [LISTENERS_PARTIAL_FIRST, LISTENERS_PARTIAL_FIRST_2]
